@@ -221,12 +221,62 @@ def register_maxdist(reg):
         else:
             eng.check(f"{name}#ensures.infinite_only_if_no_bound_applies", z3.And(*[z3.Not(tobool(c) if not isinstance(c, bool) else z3.BoolVal(c)) for c, b in conds]) if conds else z3.BoolVal(True))
 
+    def replay(inputs, clause):
+        """The real maxDistanceBetween on real objects, for every combination of ego / observing entities / visibility
+        flags / distance relations of the contract's input space; the three objects have different visible distances,
+        so the bound of the wrong viewer is a different number."""
+        import itertools
+        import types
+
+        import scenic.core.pruning as RP
+        from scenic.core.object_types import Object
+        from scenic.core.vectors import Vector
+        from scenic.syntax.relations import DistanceRelation
+
+        inf = float("inf")
+        for egok, oe_obj, oe_tgt, rv_obj, rv_tgt, nrel in itertools.product(range(4), (False, True), (False, True), (False, True), (False, True), range(3)):
+            objs = [Object._with(position=Vector(10 * k, 0, 0), visibleDistance=d, requireVisible=False) for k, d in enumerate((7.0, 19.0, 31.0))]
+            obj, target, third = objs
+            object.__setattr__(obj, "requireVisible", rv_obj)
+            object.__setattr__(target, "requireVisible", rv_tgt)
+            for o in objs:
+                object.__setattr__(o, "_observingEntity", None)
+                object.__setattr__(o, "_relations", [])
+            if oe_obj:
+                object.__setattr__(obj, "_observingEntity", target)
+            if oe_tgt:
+                object.__setattr__(target, "_observingEntity", obj)
+            rels = [DistanceRelation(target if j == 0 else third, 0, 23.0 + j) for j in range(nrel)]
+            object.__setattr__(obj, "_relations", rels)
+            ego = [obj, target, third, None][egok]
+            scenario = types.SimpleNamespace(egoObject=ego)
+            got = RP.maxDistanceBetween(scenario, obj, target)
+            bounds = []
+            if obj is ego and rv_tgt:
+                bounds.append(("ego (obj) must see target", RP.visibilityBound(obj, target)))
+            if target is ego and rv_obj:
+                bounds.append(("ego (target) must see obj", RP.visibilityBound(target, obj)))
+            if oe_obj:
+                bounds.append(("obj must be visible from target", RP.visibilityBound(target, obj)))
+            if oe_tgt:
+                bounds.append(("target must be visible from obj", RP.visibilityBound(obj, target)))
+            if nrel >= 1:
+                bounds.append(("distance relation", 23.0))
+            want = min([b for _, b in bounds], default=inf)
+            if abs(got - want) > 1e-9 if want != inf else got != inf:
+                return (
+                    f"maxDistanceBetween(obj, target) = {got} but the tightest applicable bound is {want} {bounds} "
+                    f"(visible distances obj 7, target 19, third 31; ego = {['obj', 'target', 'third', 'none'][egok]})"
+                )
+        return None
+
     reg.add(
         C.Contract(
             f"{P}:maxDistanceBetween",
             params=dict(scenario=C.Const(None), obj=C.Const(None), target=C.Const(None)),
             setup=setup,
             post=post,
+            replay=replay,
             properties=("C08",),
         )
     )
